@@ -53,13 +53,25 @@ struct Item {
 }
 
 fn make_item(rng: &mut Rng, i: u64) -> Option<Item> {
-    let (w, h) = match i % 5 {
+    let (w, h): (u32, u32) = match i % 5 {
         0 => (1, rng.range(1, 7) as u32),
         1 => (rng.range(1, 9) as u32, 1),
         _ => (rng.range(1, 24) as u32, rng.range(1, 24) as u32),
     };
     let am = rng.below(4) as u32;
-    let rgba = random_rgba(rng, w, h, am);
+    let mut rgba = random_rgba(rng, w, h, am);
+    let (mut w, mut h) = (w, h);
+    if i % 4 <= 1 && (i / 4) % 3 == 0 {
+        // constant images (every prefix code has a single symbol, nothing is read per pixel),
+        // including 1x1 and the all-zero / opaque black pixels
+        if rng.chance(1, 3) {
+            w = 1;
+            h = 1;
+        }
+        let rc = [rng.byte(), rng.byte(), rng.byte(), 255];
+        let px = *rng.pick(&[[0u8, 0, 0, 0], [0, 0, 0, 255], [255, 255, 255, 255], rc, [7, 7, 7, 7]]);
+        rgba = (0..w * h).flat_map(|_| px).collect();
+    }
     match i % 4 {
         0 | 1 => {
             // VP8L: colour type decides the stream's own alpha bit
@@ -67,7 +79,8 @@ fn make_item(rng: &mut Rng, i: u64) -> Option<Item> {
             let s = hk::enc_frame(&data, w, h, ct, rng.chance(1, 2)).ok()?;
             let mut px = vec![0u8; (w * h * 4) as usize];
             hk::vp8l_decode(Cursor::new(&s[..]), w, h, false, &mut px).ok()?;
-            Some(Item { payload: Payload::Lossless(s), w, h, model: format!("lossless {} {}", ab as u8, hex(&px)), kind: format!("VP8L_alphabit{}", ab as u8) })
+            let constant = rgba.chunks_exact(4).all(|p| p == &rgba[..4]);
+            Some(Item { payload: Payload::Lossless(s), w, h, model: format!("lossless {} {}", ab as u8, hex(&px)), kind: format!("VP8L_alphabit{}{}", ab as u8, if constant { "_constant" } else { "" }) })
         }
         2 => {
             let p = make_lossy(&drop_alpha(&rgba), w, h, *rng.pick(&[30.0f32, 80.0]));
@@ -90,7 +103,7 @@ fn make_item(rng: &mut Rng, i: u64) -> Option<Item> {
 pub fn run(o: &Opts) -> Report {
     let mut rep = Report::new("C11");
     let mut drv = Drv::spawn(&o.drv);
-    rep.rule = "payloads (VP8L with alpha bit set/clear, VP8, ALPH+VP8 with every filter; sizes 1xN, Nx1, up to 24x24) x wrappings {simple, extended flag 0/1, single full-canvas non-blended animation frame flag 0/1} x buffer poison {0x00, 0xA5} x buffer lengths {size, 0, size-1, size+1} x read twice; all outputs compared with each other (same payload => same pixels, RGB = RGBA without alpha), with ReadImage.readImage fed with the crate's own payload decoding, and buffers checked untouched on rejection. distinct_nontrivial = distinct (file, fill, length) reads".into();
+    rep.rule = "payloads (VP8L with alpha bit set/clear incl. constant-colour images down to 1x1 whose codes are all single-symbol, VP8, ALPH+VP8 with every filter; sizes 1xN, Nx1, up to 24x24) x wrappings {simple, extended flag 0/1, single full-canvas non-blended animation frame flag 0/1} x buffer poison {0x00, 0xA5} x buffer lengths {size, 0, size-1, size+1} x read twice; all outputs compared with each other (same payload => same pixels, RGB = RGBA without alpha), with ReadImage.readImage fed with the crate's own payload decoding, and buffers checked untouched on rejection. distinct_nontrivial = distinct (file, fill, length) reads".into();
     let mut rng = Rng::new(o.seed ^ 0xC11);
     let n = if o.thorough() { 1500 } else { 200 };
     for i in 0..n {
